@@ -331,8 +331,9 @@ def build(cfg, seed, logs, conf):
     elif algo == "a2c":
         m = sb3.A2C(policy, venv, n_steps=5, use_sde=cfg.get("use_sde", False), sde_sample_freq=cfg.get("sde_sample_freq", -1), policy_kwargs=pk, **kw)
     elif algo == "dqn":
+        mem = dict(optimize_memory_usage=True, replay_buffer_kwargs=dict(handle_timeout_termination=False)) if cfg.get("optimize_memory") else {}
         m = sb3.DQN(policy, venv, batch_size=8, learning_starts=10, train_freq=2, gradient_steps=1, target_update_interval=7, exploration_fraction=0.8, exploration_final_eps=0.3,
-                    buffer_size=100, policy_kwargs=pk, **kw)
+                    buffer_size=cfg.get("buffer_size", 100), policy_kwargs=pk, **mem, **kw)
     else:
         noise = None
         if cfg.get("noise") == "normal":
@@ -345,7 +346,7 @@ def build(cfg, seed, logs, conf):
         if cfg.get("her"):
             from stable_baselines3 import HerReplayBuffer
 
-            extra = dict(replay_buffer_class=HerReplayBuffer, replay_buffer_kwargs=dict(n_sampled_goal=2, goal_selection_strategy=cfg.get("her_strategy", "future")))
+            extra = dict(replay_buffer_class=HerReplayBuffer, replay_buffer_kwargs=dict(n_sampled_goal=2, goal_selection_strategy=cfg.get("her_strategy", "future"), copy_info_dict=bool(cfg.get("copy_info_dict"))))
         common_kw = dict(batch_size=8, learning_starts=cfg.get("learning_starts", 12), train_freq=2, gradient_steps=1, buffer_size=120, action_noise=noise, policy_kwargs=pk, **extra, **kw)
         if algo == "sac":
             m = sb3.SAC(policy, venv, use_sde=cfg.get("use_sde", False), sde_sample_freq=cfg.get("sde_sample_freq", -1), use_sde_at_warmup=cfg.get("use_sde", False), **common_kw)
@@ -560,6 +561,21 @@ def noise_validation_problems():
     import numpy as np
 
     probs = []
+    # __repr__ of the three classes names the parameters
+    b0 = N.NormalActionNoise(np.zeros(2), np.ones(2))
+    o0 = N.OrnsteinUhlenbeckActionNoise(np.zeros(2), np.ones(2))
+    for obj in (b0, o0, N.VectorizedActionNoise(o0, 2)):
+        r = repr(obj)
+        if not (("mu=" in r and "sigma=" in r) or "BaseNoise" in r):
+            probs.append(("noise-repr", f"repr of {type(obj).__name__} does not name its parameters: {r}"))
+    # noises setter: wrong length / wrong type are rejected
+    v0 = N.VectorizedActionNoise(b0, 2)
+    for bad, exc in (([b0], AssertionError), ([o0, o0], ValueError)):
+        try:
+            v0.noises = bad
+            probs.append(("noise-vectorized-accepts-bad-noises", f"VectorizedActionNoise.noises = {bad!r} did not raise"))
+        except exc:
+            pass
     base = N.NormalActionNoise(np.zeros(2), np.ones(2))
     for bad in (0, -1):
         try:
@@ -578,6 +594,37 @@ def noise_validation_problems():
     arrs = [n.initial_noise for n in v.noises] + [v.base_noise.initial_noise]
     if len(ids) != 4 or any(np.shares_memory(a, b) for i, a in enumerate(arrs) for b in arrs[i + 1:]):
         probs.append(("noise-vectorized-copies-share-state", "the per-env noises are not independent deep copies of the base noise"))
+    return probs
+
+
+def seed_api_problems():
+    """VecEnv.seed() without a seed draws it from the (seeded) numpy global generator; utils.set_random_seed(using_cuda=True)
+    additionally sets the cuDNN determinism flags; VecEnvWrapper.seed delegates"""
+    import numpy as np
+    import torch as th
+    from stable_baselines3.common.utils import set_random_seed
+    from stable_baselines3.common.vec_env import DummyVecEnv, VecNormalize
+
+    probs = []
+    cls = make_env_fn("continuous", [])
+    venv = VecNormalize(DummyVecEnv([(lambda i=i: cls(i)) for i in range(3)]))
+    np.random.seed(77)
+    want = int(np.random.randint(0, np.iinfo(np.uint32).max, dtype=np.uint32))
+    np.random.seed(77)
+    got = venv.seed()
+    if [int(x) for x in got] != [want, want + 1, want + 2]:
+        probs.append(("vecenv-seed-fallback", f"VecEnv.seed() after np.random.seed(77) returned {got}, expected {[want, want + 1, want + 2]} (drawn from the numpy global generator, +idx per sub-env)"))
+    np.random.seed(77)
+    if [int(x) for x in venv.seed()] != [int(x) for x in got]:
+        probs.append(("vecenv-seed-fallback-not-reproducible", "VecEnv.seed() is not a function of the numpy global generator state"))
+    old = (th.backends.cudnn.deterministic, th.backends.cudnn.benchmark)
+    try:
+        th.backends.cudnn.deterministic, th.backends.cudnn.benchmark = False, True
+        set_random_seed(5, using_cuda=True)
+        if not (th.backends.cudnn.deterministic is True and th.backends.cudnn.benchmark is False and th.initial_seed() == 5):
+            probs.append(("cuda-determinism-flags", "set_random_seed(using_cuda=True) did not set cudnn.deterministic=True / benchmark=False"))
+    finally:
+        th.backends.cudnn.deterministic, th.backends.cudnn.benchmark = old
     return probs
 
 
@@ -742,6 +789,8 @@ def run_once(cfg, seed, conf=None):
 
         init_seed = th.initial_seed()
         m.learn(total_timesteps=cfg["total"])
+        if cfg.get("learn_twice"):
+            m.learn(total_timesteps=cfg["total"] // 2, reset_num_timesteps=False)  # continues: no reset, no re-seeding
         envs = sorted(logs, key=lambda e: e.idx)[: cfg["n_envs"]]
         fp = fingerprint(m, envs)
         m.get_env().reset()  # a second explicit reset: must not deliver the seeds again
@@ -776,6 +825,12 @@ CONFIGS = [
     dict(algo="sac", env="continuous", n_envs=1, total=30, learning_starts=22, reseed=True, build_seed=None),
     dict(algo="dqn", env="discrete", n_envs=2, total=40, reseed=True, build_seed=1),
     dict(algo="ppo", env="discrete", n_envs=2, total=32, reseed=True, build_seed=None),
+    # round 4 audit: memory-optimised replay sampling (both the not-full and the wrapped branch), HER with copy_info_dict,
+    # a second learn() call on the same model
+    dict(algo="dqn", env="discrete", n_envs=1, total=60, optimize_memory=True, buffer_size=30),
+    dict(algo="sac", env="goal", n_envs=1, total=40, her=True, her_strategy="future", copy_info_dict=True, learning_starts=16),
+    dict(algo="td3", env="continuous", n_envs=2, total=24, noise="normal", learn_twice=True),
+    dict(algo="a2c", env="discrete", n_envs=1, total=20, learn_twice=True),
 ]
 
 
@@ -903,11 +958,13 @@ def main():
                 n_model += 1
                 chk.violation("model-correspondence-seed-plumbing", f"model generators/deliveries {str(got)[:300]} vs implementation {str(want)[:300]}",
                               {"config": cfg, "model": str(got), "impl": str(want), "correspondence": "harness/c10.py vs Model.Seeding.run"}, found_input=False)
+    for sig, msg in seed_api_problems()[:2]:
+        chk.violation(sig, msg, {"kind": "seed-api"}, found_input=True)
     noise_stats = noise_campaign(chk)
     chk.notes["noise_correspondence"] = noise_stats
     chk.coverage["evaluations"] = 3 * pairs + len(sites) + noise_stats["cases"]
     chk.coverage["traces_validated_against_impl"] = 3 * pairs
-    chk.coverage["distinct_nontrivial"] = sum(1 for c in cfgs if c["n_envs"] >= 2 or c.get("her") or c.get("use_sde") or c.get("noise") or c.get("vecnormalize") or c.get("reseed"))
+    chk.coverage["distinct_nontrivial"] = sum(1 for c in cfgs if c["n_envs"] >= 2 or c.get("her") or c.get("use_sde") or c.get("noise") or c.get("vecnormalize") or c.get("reseed") or c.get("learn_twice") or c.get("optimize_memory"))
     chk.coverage["rule"] = ("paired runs (same seed twice, one different seed) of tiny learn() calls; non-trivial = more than one sub-env or an extra randomness consumer (gSDE resampling, action noise, HER, "
                             "VecNormalize); evaluations = runs + scanned call sites")
     chk.notes["explanation"] = (f"Category other: seed-plumbing and action-noise theorems in Coq ({chk.coverage.get('obligations', 0)}, axiom-free) + ast call-site scan judged by Model.Seeding.scan_ok + paired-run search with an entropy monitor. "
